@@ -50,7 +50,7 @@ def _run_replayer(bindir, args, files, timeout):
     env = dict(os.environ, VERIF_CLASSES=families.classes_file())
     cmd = [os.path.join(bindir, "replayer")] + args + files
     try:
-        r = subprocess.run(cmd, capture_output=True, text=True, timeout=timeout, env=env)
+        r = subprocess.run(cmd, capture_output=True, text=True, errors="replace", timeout=timeout, env=env)
     except subprocess.TimeoutExpired:
         raise ToolError("replayer timeout: " + " ".join(cmd))
     return r
@@ -63,7 +63,17 @@ def replay_step(res, family, kinds=None, modes="base", profile="release", backen
         path, meta = families.family_file(family)
         files = [path]
     variant = variant or {}
-    bindir = build_harness(profile, variant.get("rustflags", ""), variant.get("env"), variant.get("subdir"), variant.get("features"))
+    try:
+        bindir = build_harness(profile, variant.get("rustflags", ""), variant.get("env"), variant.get("subdir"), variant.get("features"))
+    except ToolError as e:
+        # the reference build works but this switch combination does not compile: that is what
+        # C13 ("every supported combination of build switches compiles") is about
+        if variant and res.prop == "C13":
+            build_harness("release")
+            res.violation("build variant %s does not compile: %s" % (variant.get("subdir"), str(e)[-600:]),
+                          {"kind": "variant-build", "variant": variant, "key": "variant-build:%s" % variant.get("subdir")})
+            return None
+        raise
     args = ["--mode", modes, "--threads", str(threads or NCPU)]
     if kinds:
         args += ["--kinds", kinds]
